@@ -290,6 +290,7 @@ fn inline_job(case: &InlineCase, lines: Vec<String>) -> Job {
                 .collect(),
             fs_write_faults: vec![],
             file_updates: vec![],
+            no_working_directory: false,
         },
         clock: Clock::default(),
         real_state: false,
@@ -927,6 +928,7 @@ fn stream_job(case: &StreamCase) -> (Job, Vec<(usize, usize)>) {
                 .collect(),
             fs_write_faults: vec![],
             file_updates,
+            no_working_directory: false,
         },
         clock: Clock::default(),
         real_state: false,
